@@ -45,6 +45,18 @@ Theorem C03_no_deadlock : forall par files s,
 Proof. exact gate_progress. Qed.
 Print Assumptions C03_no_deadlock.
 
+(* ... and the move never depends on the file scheduler being generous: an
+   enabled event can always be chosen that asks for a new file only when no file
+   is active - the one situation in which the real hybrid scheduler provably
+   hands one out (C17_files_live); its refusals while small files are running
+   (C17_sched_refusal) therefore cannot stall a healthy transfer *)
+Theorem C03_no_deadlock_whatever_the_scheduler_refuses : forall par files s,
+  1 <= par -> NoDup (map fst files) ->
+  reachable par false files s ->
+  gfinal s = true \/ exists e s', gstep s e = Some s' /\ (forall f, e = GActivate f -> g_active s = []).
+Proof. exact gate_progress_idle. Qed.
+Print Assumptions C03_no_deadlock_whatever_the_scheduler_refuses.
+
 (* hence every run that cannot be extended has ended with both sides successful,
    after at most mu(initial state) events *)
 Theorem C03_maximal_runs_succeed : forall par files evs s,
